@@ -1,6 +1,7 @@
 (* C13 — without -x no external command is ever started.
    Static part: facts regenerated from /repo's SSA on every run (Gen/Facts.v). *)
 Require Import Facts.
+Require Import St Ctl Loop CtlProofs Doc.
 From Coq Require Import String List Bool.
 Import ListNotations.
 Open Scope string_scope.
@@ -21,3 +22,20 @@ Theorem C13_static :
   subset unrestricted_writers ["(*frundis.Context).Reset"; "frundis.ProcessFrundisSource"] = true.
 Proof. repeat split; try (vm_compute; reflexivity). vm_compute. discriminate. Qed.
 Print Assumptions C13_static.
+
+(* Dynamic part, about the model (Model/Ctl.v, Model/Loop.v): whatever the document, its included files, the format and
+   the mode, a compilation without -x starts no command -- the log of commands started is empty -- by every route:
+   #run and shell filters reached directly, through user macros, variables, includes, filter lines and blocks,
+   as-is includes, inline arguments.  The rendering macros cannot even see the flag or the log: they are functions of
+   the rendering state alone (Model/Ctl.lift); the four macros typed on both sides are guarded (Proofs/CtlProofs.v). *)
+Theorem C13_no_command_without_x : forall fmtname md wd main,
+  w_unrestricted wd = false -> commands_started fmtname md wd main = [].
+Proof. exact no_command_without_x. Qed.
+Print Assumptions C13_no_command_without_x.
+(* non-vacuity: with -x the same document does start its commands, in order *)
+Example C13_with_x : commands_started (runes "xhtml") 0
+    (mkWorld [] [(main_path, runes ".#run echo a
+.X ftag -t c -shell cat
+.Ft -t c text
+")] [] true []) main_path = [[runes "echo"; runes "a"]; [runes "cat"]].
+Proof. vm_compute. reflexivity. Qed.
